@@ -298,15 +298,20 @@ func (c13) Run(plan interface{}, schedSeed uint64, replay []simrt.Choice, lenien
 	}
 
 	c13SetupsDone = false
+	// (what belongs to the scheduler - the peer, the transport - is changed in the scheduler's goroutine)
 	c13StallPeer = func() {
 		if p.StallWindow >= 0 {
-			pr.Conn.PeerStalled, pr.Conn.SendWindow = true, p.StallWindow
-			s.Fault("peer-stops-reading")
+			simrt.Sched(func() {
+				pr.Conn.PeerStalled, pr.Conn.SendWindow = true, p.StallWindow
+				s.Fault("peer-stops-reading")
+			})
 		}
 	}
 	c13EndPeer = func() {
-		pr.Conn.End(simrt.TermEOF, false)
-		s.Fault("close-eof")
+		simrt.Sched(func() {
+			pr.Conn.End(simrt.TermEOF, false)
+			s.Fault("close-eof")
+		})
 	}
 	res := &c13Res{cancelSeq: -1}
 	var readerParked bool
@@ -487,6 +492,8 @@ func c13Cancel(p *c13Plan, res *c13Res, conn *tds.Conn, ch *tds.Channel, cancelP
 		res.setupErr = "send: " + err.Error()
 		return
 	}
+	// (plain on purpose: an atomic would be a happens-before edge between the two tasks and could hide a race of
+	// the library; the detector's reports about harness variables are ignored by the worker)
 	var consumerIn bool
 	consumer := simrt.Spawn("consumer", func() {
 		next := int32(1000)
@@ -821,7 +828,7 @@ func c13CloseQueue(p *c13Plan, res *c13Res, conn *tds.Conn, ch *tds.Channel) {
 func c13CloseSend(p *c13Plan, res *c13Res, conn *tds.Conn, ch *tds.Channel) {
 	bg, cancel := simrt.WithTimeout(context.Background(), 5*time.Minute)
 	defer cancel()
-	var senderIn bool
+	var senderIn bool // plain on purpose, see consumerIn
 	sender := simrt.Spawn("sender", func() {
 		for i := 0; i < p.Sends; i++ {
 			senderIn = true
@@ -882,6 +889,8 @@ func c13CloseRecv(p *c13Plan, res *c13Res, conn *tds.Conn, ch *tds.Channel) {
 			return
 		}
 	}
+	// (plain on purpose: an atomic would be a happens-before edge between the two tasks and could hide a race of
+	// the library; the detector's reports about harness variables are ignored by the worker)
 	var consumerIn bool
 	// the consumer waits without a deadline of its own: only Close can end its wait
 	none := context.Background()
